@@ -192,6 +192,8 @@ def run(tier):
                     for L in sorted((set(hc) | set(sc)) - {None}):
                         if not (isinstance(L, int) and 0 < L <= len(src_lines)) or "lambda" in src_lines[L - 1]:
                             continue  # a lambda body is a statement of its own on the same line: per-line counts are not comparable
+                        if not src_lines[L - 1].startswith((" ", "\t")):
+                            continue  # module-level statements outside loops: the known double-stop finding makes their counts irregular
                         st["every_line_lines"] = st.get("every_line_lines", 0) + 1
                         if hc.get(L, 0) != sc.get(L, 0):
                             text = src.split("\n")[L - 1].strip() if isinstance(L, int) and 0 < L <= len(src.split("\n")) else "?"
